@@ -306,7 +306,7 @@ func main() {
 		r.Finish()
 		return
 	}
-	n, maxLogs := 220, 12
+	n, maxLogs := 600, 12
 	if r.Thorough() {
 		n, maxLogs = 6000, 24
 	}
